@@ -230,3 +230,41 @@ def input_of(row, histories=None):
             "mysql": row["result"],
             "how_to_replay": "./vf replay C04 <this file>; by hand: write the plans of `history` to migrations/ and run "
                              "`vespertide sql --backend mysql` (the last migration is the failing one)"}
+
+
+# ---------------------------------------------------------------------------------- triage of O-C04 verdicts
+def symptoms(v):
+    """what has to be explained: the engine rule id, or each differing catalog component kind"""
+    if v["code"] == 1:
+        return [v["rule"].split()[0]]
+    if v["code"] == 2:
+        return sorted({t.split(":")[0] for t in v["object"].split()})
+    if v["code"] == 4:
+        return ["implementation-refused"]
+    return []
+
+
+def triage(res, known):
+    """-> (per finding id: [case idx], unexplained [(idx, symptom list)], not_judged count)
+    A failing case is accepted only if EVERY symptom is explained by an open finding whose classifier holds on it."""
+    order = res.get("classifiers") or classifier_order()
+    pos = {name: i for i, name in enumerate(order)}
+    open_known = [k for k in known if k.get("status") == "open"]
+    per, unexplained, skipped = collections.defaultdict(list), [], collections.Counter()
+    for i, v in sorted(res["verdicts"].items(), key=lambda kv: int(kv[0])):
+        if v["code"] == 3:
+            skipped[v["rule"] + (" " + v["object"] if v["object"] else "")] += 1
+            continue
+        left = []
+        for s in symptoms(v):
+            hit = [k for k in open_known if s in k.get("explains", []) and k["classifier"] in pos
+                   and pos[k["classifier"]] < len(v["known"]) and v["known"][pos[k["classifier"]]]]
+            if hit:
+                for k in hit:
+                    if int(i) not in per[k["id"]]:
+                        per[k["id"]].append(int(i))
+            else:
+                left.append(s)
+        if left:
+            unexplained.append((int(i), left))
+    return per, unexplained, skipped
